@@ -3668,6 +3668,11 @@ static Token *function(Token *tok, Type *basety, VarAttr *attr) {
   if (equal(tok, ","))
     return global_variable(tok->next, basety, attr);
 
+  // A function definition inside a function body would take over
+  // current_fn and the list of locals of the enclosing function.
+  if (current_fn)
+    error_tok(tok, "nested function definitions are not supported");
+
   current_fn = fn;
   locals = NULL;
   if (fn_scope)
